@@ -145,6 +145,31 @@ def main(argv):
                         or any(e[0] == "fault" for e in S.world.ledger) or plan.get("mutation") or any(
                             ev[0] in ("exc", "eof") for c in S.world.conns for ev in [(p[0],) for p in c.pipe]) or plan.get("recv_fault")
                     healthy_equiv = canon(got)
+                    if "many" in name and not isinstance(got, Exception) and fired and isinstance(got, dict) and not got and canon(miss) != "{}":
+                        ctx.violation("the miss value of a multi-key read is not an empty dict", dict(case, miss=canon(miss)[:80]), tags=tags + ["shape"])
+                    if isinstance(got, dict):
+                        # the caller owns what it got: filling it in (read-through caching) must not show up in any later result
+                        got_before = canon(got)
+                        got["__filled_in_by_caller__"] = b"x"
+                        S.begin_call(3, {k: v for k, v in plan.items() if k != "bad_serde"})
+                        try:
+                            again = inv(obj)
+                        except Exception as e:
+                            again = e
+                        if isinstance(again, dict) and "__filled_in_by_caller__" in again:
+                            ctx.violation("a later read returned the container an earlier (failed) read had handed to the caller, with the caller's additions",
+                                          dict(case, later=canon(again)[:100]), tags=tags + ["shape", "shared-result"])
+                        got.pop("__filled_in_by_caller__", None)
+                        S0b = Scripted(rng)
+                        o0b = build(cls, S0b, classes)
+                        S0b.begin_call(0, {})
+                        try:
+                            fresh_miss = inv(o0b)
+                        except Exception as e:
+                            fresh_miss = e
+                        if canon(fresh_miss) != "{}" and "many" in name:
+                            ctx.violation("the miss value of a multi-key read on a healthy empty server is not an empty dict (any more)", dict(case, miss=canon(fresh_miss)[:80]),
+                                          tags=tags + ["shape", "shared-result"])
                     if isinstance(got, Exception):
                         ctx.violation("a read raised although ignore_exc is set", case, tags=tags + ["raised"])
                     elif canon(got) != canon(miss):
@@ -204,6 +229,11 @@ def main(argv):
                         miss = inv(obj)
                     except Exception as e:
                         miss = e
+                    try:
+                        obj.set("a", b"stored-before-the-outage", noreply=False)
+                        miss_hit = None
+                    except Exception:
+                        pass
                     case0 = {"class": cls, "options": kw, "method": name, "outage": down_kind}
                     ctx.case(("outage", cls, repr(kw), name, down_kind))
                     ctx.count("lasting-outages")
@@ -235,8 +265,24 @@ def main(argv):
                             break
                     if not ok:
                         continue
-                    # the server is back: after the dead period the object serves reads again
+                    # the server is back and traffic is DENSE (a read every few seconds, never a gap longer than dead_timeout): within two
+                    # dead_timeout periods the object must serve the stored key again
                     S.world.arm({})
+                    if cls not in ("Client", "Pooled"):
+                        back = None
+                        for tick in range(40):
+                            clock[0] += 4
+                            S.begin_call(50 + tick, {})
+                            try:
+                                back = obj.get("a", default=DEFAULT)
+                            except Exception as e:
+                                back = e
+                            if back == b"stored-before-the-outage":
+                                break
+                        if back != b"stored-before-the-outage":
+                            ctx.violation("after a lasting outage ended, 160 s of steady traffic (dead_timeout = 60 s) did not bring the object back to serving the stored key",
+                                          dict(case0, last=canon(back)[:80]), tags=["class:" + cls, "outage", "not-usable-afterwards"])
+                            continue
                     for dt_ in (0, 61, 61, 1):
                         clock[0] += dt_
                         S.begin_call(99, {})
